@@ -16,8 +16,11 @@ RULE = (
     "(thorough, 87381), each built as Paragraph, Header and Span by the constructor and by every 2-way split "
     "into constructor+append (and random 3-way splits through append_plain_text/append); random strings to "
     "length 40 over the core alphabet plus e-acute, <, &, \", NBSP, U+2009, U+3000, an astral character; "
-    "formatted=False variants (expected text = [ \\t\\n]+ -> ' '). One evaluation = one built element judged by "
-    "inner_text == s, re-parse inner_text == s, O-TEXT(serialisation) == s, no raw TAB/CR/LF in text nodes, "
+    "formatted=False variants (expected text = [ \\t\\n]+ -> ' '); token strings mixing space runs of length "
+    "1..1001 chosen on the digit boundaries of the text:c counter (9/10/11, 19/20/21, 99/100/101, 999/1000), also "
+    "accumulated one append at a time, with text that looks like markup (name-space and attribute declarations, "
+    "entities, CDATA, comments). One evaluation = one built element judged by "
+    "inner_text == s, re-parse (of serialize(with_ns=True) and of the default serialize()) inner_text == s, O-TEXT(serialisation) == s, no raw TAB/CR/LF in text nodes, "
     "text:c well-formed. Class = (element class, build route, run-shape abstraction of the string: leading/"
     "inner/trailing space-run lengths {1,2,3+}, TAB/LF adjacency, split inside a space run)."
 )
@@ -42,6 +45,13 @@ REACH = [
 
 CORE = ["a", " ", "\t", "\n"]
 EXTRA = ["é", "<", "&", '"', " ", " ", "　", "\U0001f600", "b", "'", ">"]
+
+
+RUNS = [1, 2, 3, 8, 9, 10, 11, 12, 19, 20, 21, 22, 99, 100, 101, 102, 120, 999, 1000, 1001]
+MARKUP_LIKE = [
+    ' xmlns:a="http://x.org/a"', ' xmlns:b="a b"', 'xmlns:c="urn:x"', ' xmlns:text="urn:oasis:names:tc:opendocument:xmlns:text:1.0"', ' xmlns:d=""',
+    ' text:c="3"', '<text:s/>', "&amp;", "&#32;", "&lt;a&gt;", "<!-- x -->", "]]>", "<![CDATA[ x ]]>", '="', "'>", " xmlns:e='u'",
+]
 
 
 class ContractBroken(Exception):
@@ -91,7 +101,8 @@ def shape(s):
     for m in re.finditer(r" +|\t|\n|[^ \t\n]+", s):
         g = m.group()
         if g[0] == " ":
-            toks.append("s" + ("1" if len(g) == 1 else "2" if len(g) == 2 else "3+"))
+            n = len(g)
+            toks.append("s" + ("1" if n == 1 else "2" if n == 2 else "3+" if n < 10 else "10+" if n < 20 else "20+" if n < 100 else "100+"))
         elif g == "\t":
             toks.append("T")
         elif g == "\n":
@@ -99,7 +110,7 @@ def shape(s):
         else:
             kinds = set()
             for ch in g:
-                if ch in "<&\"'>":
+                if ch in "<&\"'>:=":
                     kinds.add("x")
                 elif ord(ch) > 127:
                     kinds.add("u" if not ch.isspace() else "w")
@@ -139,6 +150,14 @@ def judge(el, expected):
         out.append(("reparse-class", {"got": type(back).__name__}))
     elif back.inner_text != expected:
         out.append(("reparse-inner_text", {"got": back.inner_text}))
+    # the default serialisation (name-space declarations removed) is re-parsed too
+    plain = el.serialize()
+    try:
+        back2 = Element.from_tag(plain)
+        if back2.inner_text != expected:
+            out.append(("reparse-serialize()", {"got": back2.inner_text, "xml": plain[-300:]}))
+    except Exception as e:
+        out.append(("reparse-serialize()-raised", {"exc": repr(e), "xml": plain[-300:]}))
     tree = odftext.parse(xml)
     proj = odftext.project(tree)
     if proj != expected:
@@ -216,6 +235,29 @@ def run(ctx, res):
             build_and_judge(res, kind, pieces[:2], "append", formatted=False)
         if i < 2:
             res.sample({"kind": kind, "pieces": pieces, "route": route})
+    # strings assembled from tokens: space runs whose length sits on a digit boundary of the text:c counter,
+    # and text that looks like markup (attribute and name-space declarations, entity look-alikes)
+    rng = ctx.rng("tokens")
+    for i in range(600 if ctx.quick else 20000):
+        toks = []
+        for _ in range(rng.randint(1, 6)):
+            r = rng.random()
+            if r < 0.4:
+                toks.append(" " * rng.choice(RUNS))
+            elif r < 0.6:
+                toks.append(rng.choice(MARKUP_LIKE))
+            elif r < 0.7:
+                toks.append(rng.choice(["\t", "\n"]))
+            else:
+                toks.append(rng.choice(["a", "bc", "é", "x:y"]))
+        s = "".join(toks)
+        kind = rng.choice(["Paragraph", "Header", "Span"])
+        build_and_judge(res, kind, [s], "ctor")
+        k = rng.randrange(len(s) + 1)
+        build_and_judge(res, kind, [s[:k], s[k:]], rng.choice(["append", "append_plain_text"]))
+        if i % 3 == 0:  # a run accumulated one call at a time
+            n = rng.choice(RUNS)
+            build_and_judge(res, kind, ["a"] + [" "] * n + ["b"], "append")
     res.count("contract:_sub_merge_spaces", _K["n"])
     if _K["n"] == 0:
         raise RuntimeError("contract on _sub_merge_spaces was never evaluated")
